@@ -3,7 +3,8 @@
 From Coq Require Import String.
 From Coq Require Import List Ascii ZArith Bool Lia.
 From CGV Require Import Base.PyBase Base.PyVal Base.NxGraph Resolve.Bonding Resolve.GraphOps Resolve.Pipeline
-     Resolve.MapDefs Resolve.Witness Resolve.MapProofs Resolve.CopyProofs Resolve.PipelineFull Resolve.FragidProofs Resolve.EdgeCopy Resolve.EdgeCopyGen Resolve.BondedCopy Resolve.BondingDefs Resolve.WfMerged Resolve.CoarseCopy.
+     Resolve.MapDefs Resolve.Witness Resolve.MapProofs Resolve.CopyProofs Resolve.PipelineFull Resolve.FragidProofs Resolve.EdgeCopy Resolve.EdgeCopyGen Resolve.BondedCopy Resolve.BondingDefs Resolve.WfMerged Resolve.CoarseCopy Resolve.AllAtomCopy.
+From CGV Require Compose.RebuildWf Hydro.Hydrogens.
 From CGV Require Hydro.Squash Gen.HydroGen.
 From CGV Require Hydro.SquashDefs Hydro.SquashProofs Compose.GraphAdj Compose.GraphFacts.
 From CGV Require Import Compose.CutModel Compose.ComposeFlat Compose.CutSpecCheck Compose.LevelsExamples.
@@ -227,6 +228,46 @@ Proof. exact step_coarse_copy. Qed.
 Example C02_step_coarse_copy_nonvacuous :
   match resolve_step_full true false fd_AB base_VAB None with Ok fo => graph_eqb (fo_m3 fo) (fo_m2 fo) | Err _ => false end = true.
 Proof. vm_compute. reflexivity. Qed.
+(** ---- the RETURNED graph of an ALL-ATOM step (Resolve/AllAtomCopy.v): arbitrary dictionary of well-formed templates with dict-like
+    attribute lists (wf_attrs), arbitrary coarse graph whose base edges join different coarse nodes, ANY aromaticity transcript g1
+    that Hydro's contract accepts and that carries no 'rs_isomer' attribute, no atoms squashed: every coarse node with a fragment
+    has its copy in the returned graph - hydrogens completed, sorted, E/Z-annotated, named -: an injective map cf from template
+    atoms to returned atoms recording exactly [coarse key] and [(fragname, atom)], with an edge exactly where the template has
+    one.  (Edge orders are outside the statement: the transcript may change them.) *)
+Theorem C02_step_allatom_copy : forall legacy fd prev g1 fo, tmpl_dict fd -> wf_attrs fd ->
+  resolve_step_full legacy true fd prev (Some g1) = Ok fo -> fo_m3 fo = fo_m2 fo ->
+  (forall es, base_edges (fo_meta fo) = Ok es -> wf_edges es) -> RebuildWf.all_no_rs g1 ->
+  forall pre mn post fv name frag, fo_meta fo = (pre ++ mn :: post)%list ->
+  aget (S "fragname") (na mn) = Some fv -> lookup_fragment fd fv = Some (name, frag) ->
+  exists cf : Z -> Z,
+    (forall a b, In a (node_keys frag) -> In b (node_keys frag) -> cf a = cf b -> a = b) /\
+    (forall n, In n frag -> node_get (fo_mol fo) (cf (nk n)) (S "fragid") = Some (VList [VInt (nk mn)]) /\
+                            node_get (fo_mol fo) (cf (nk n)) (S "mapping") = Some (mapping_val name (nk n))) /\
+    (forall a b, In a (node_keys frag) -> In b (node_keys frag) -> has_edge (fo_mol fo) (cf a) (cf b) = has_edge frag a b).
+Proof. exact step_allatom_copy. Qed.
+(** non-vacuity: {[#A][#A]}.{#A=CC[$]} all-atom with the model's own bonded graph as transcript: the step returns, nothing is
+    squashed, the transcript has no 'rs_isomer', the base edge joins different coarse nodes *)
+Definition catom02 (h : Z) (extra : attrs) : attrs :=
+  ([(S "element", VStr (S "C")); (S "charge", VInt 0); (S "aromatic", VBool false); (S "hcount", VInt h)] ++ extra)%list.
+Definition fd_CC02 : fragdict :=
+  [(S "A", add_edge (add_node (add_node gempty 0 (catom02 3 [(S "fragname", VStr (S "A")); (S "fragid", VInt 0)]))
+                     1 (catom02 2 [(S "fragname", VStr (S "A")); (S "fragid", VInt 0); (S "bonding", VList [VStr (S "$1")])]))
+           0 1 [(S "order", VInt 1)])].
+Definition base_AA02 : graph := [cnode 0 "A" [(1, 1)]; cnode 1 "A" [(0, 1)]].
+Example C02_step_allatom_copy_nonvacuous :
+  match resolve_disconnected fd_CC02 base_AA02 with
+  | Ok (m1, fg1) =>
+      match bonding_step true true base_AA02 m1 fg1 with
+      | Ok (m2, _) =>
+          match resolve_step_full true true fd_CC02 base_AA02 (Some m2) with
+          | Ok fo => graph_eqb (fo_m3 fo) (fo_m2 fo)
+                     && forallb (fun n => match aget (S "rs_isomer") (na n) with None => true | Some _ => false end) m2
+                     && match base_edges base_AA02 with Ok es => forallb (fun e => negb (Z.eqb (fst (fst e)) (snd (fst e)))) es | Err _ => false end
+                     && Nat.eqb (length (fo_mol fo)) 14
+          | Err _ => false end
+      | Err _ => false end
+  | Err _ => false end = true.
+Proof. vm_compute. reflexivity. Qed.
 (** non-vacuity: the witness dictionary satisfies tmpl_dict and the loop returns on {[#V].[#A][#B]} *)
 Example C02_disconnected_edges_copy_nonvacuous :
   tmpl_dict fd_AB /\ match resolve_disconnected fd_AB base_VAB with Ok (mol, _) => Nat.eqb (length mol) 3 | Err _ => false end = true.
@@ -275,6 +316,7 @@ Print Assumptions C02_disconnected_graph_wf.
 Print Assumptions C02_bonded_graph_wf.
 Print Assumptions C02_squash_identity.
 Print Assumptions C02_step_coarse_copy.
+Print Assumptions C02_step_allatom_copy.
 Print Assumptions C02_frag_exact.
 Print Assumptions C02_frag_cover.
 Print Assumptions C02_fragid_singleton.
